@@ -3,6 +3,8 @@
   Property theorems and non-vacuity examples only. Model: Kopf/Model/X01_Reactor.lean (the glue is listed there).
 -/
 import Kopf.Lemmas.X01_Refine
+import Kopf.Lemmas.X01_Clock
+import Kopf.Lemmas.X01_Barrier
 import Kopf.Props.C03
 namespace Kopf.X01
 open Kopf
@@ -43,12 +45,15 @@ theorem reactor_refines_loop (T : Int) (env : C03.Env) (r : RState E) (h : InTim
         · exact h1.symm
         · rw [hrv]; exact hw'
     · simp only [absS, viewOf, h1, h2, h3, h4, h5, h7, h8, fwd]
-      cases hp : sv'.pending <;> simp [objOf]
+      cases hp : sv'.pending <;> simp [objOfS]
       all_goals first | rfl | omega | (split <;> split <;> omega)
 
-/-- GUARD of the lifted theorems: a turn of C03's loop does not set the clock back. (True of every well-formed
-    environment — latencies ≥ 0, the delays of a pass are ≥ 0: `C03.delays_nonneg` — but not proved here.) -/
+/-- A turn of C03's loop does not set the clock back. -/
 def ClockFwd (env : C03.Env) (E : Type) [DecidableEq E] : Prop := ∀ s : C03.State E, s.now ≤ (C03.loopStep env s).now
+
+/-- … which every well-formed environment satisfies (latencies ≥ 0, keepalive cap > 0; the delays of a pass are ≥ 0:
+    `C03.delays_nonneg`): the lifted theorems below need no guard beyond `C03.WF`. -/
+theorem clockFwd_of_wf (env : C03.Env) (wf : C03.WF env) : ClockFwd env E := fun s => loopStep_now_le env wf s
 
 theorem fwd_id (s s' : C03.State E) (h : s.now ≤ s'.now) : fwd s s' = s' := by
   unfold fwd
@@ -57,7 +62,7 @@ theorem fwd_id (s s' : C03.State E) (h : s.now ≤ s'.now) : fwd s s' = s' := by
 
 /-- … and so do its iterates: with every event delivered in time, `n` iterations of the composed worker are `n`
     turns of C03's loop on the object/memory component. EVERY theorem of C03 about `iter` lifts through this. -/
-theorem reactor_iter_refines (T : Int) (env : C03.Env) (hf : ClockFwd env E) :
+theorem reactor_iter_refines (T : Int) (env : C03.Env) (wf : C03.WF env) :
     ∀ (n : Nat) (r : RState E), InTime r →
       InTime (witer T env n r) ∧ absS (witer T env n r) = C03.iter env n (absS r) := by
   intro n
@@ -69,13 +74,13 @@ theorem reactor_iter_refines (T : Int) (env : C03.Env) (hf : ClockFwd env E) :
     obtain ⟨h3, h4⟩ := ih _ h1
     refine ⟨h3, ?_⟩
     show absS (witer T env n (work T env 0 r)) = C03.iter env n (C03.loopStep env (absS r))
-    rw [h4, h2, fwd_id _ _ (hf _)]
+    rw [h4, h2, fwd_id _ _ (loopStep_now_le env wf _)]
 
 /-- C03's CONVERGENCE (`converges_finitely_failing`) lifted to the composed system: in time, with handlers whose scripts
     have finitely many failures, the composed worker empties its queue; the object, if it still exists then, carries no
     progress record (if the framework sees it) and its last-handled state is its essence (seen, not in deletion). -/
 theorem reactor_converges (T : Int) (env : C03.Env) (wf : C03.WF env) (hfin : C03.FinitelyFailing env)
-    (hf : ClockFwd env E) (r : RState E) (hin : InTime r) (hu : C03.Uniform env (absS r))
+    (r : RState E) (hin : InTime r) (hu : C03.Uniform env (absS r))
     (hq : r.queue ≠ []) (hg : r.srv.gone = false) :
     ∃ m, (witer T env m r).queue = [] ∧
       (r.srv.marked = false → (witer T env m r).srv.gone = false) ∧
@@ -87,7 +92,7 @@ theorem reactor_converges (T : Int) (env : C03.Env) (wf : C03.WF env) (hfin : C0
     | nil => exact absurd h hq
     | cons a l => simp [absS, h]
   obtain ⟨m, h1, h2, h3⟩ := C03.converges_finitely_failing env wf hfin (absS r) hu hp hg
-  obtain ⟨_, he⟩ := reactor_iter_refines T env hf m r hin
+  obtain ⟨_, he⟩ := reactor_iter_refines T env wf m r hin
   rw [← he] at h1 h2 h3
   refine ⟨m, ?_, h2, fun hgq => ⟨(h3 hgq).1, (h3 hgq).2.1⟩⟩
   have : (!(witer T env m r).queue.isEmpty) = false := h1
@@ -99,19 +104,31 @@ theorem reactor_converges (T : Int) (env : C03.Env) (wf : C03.WF env) (hfin : C0
 example (e : E) (t : Int) : InTime (created e t) :=
   ⟨rfl, Or.inr ⟨_, rfl, rfl, rfl, Or.inl rfl⟩⟩
 
-/-! ## 2. C07 in composition (versions internal) — PARTIAL: the step, not yet the invariant over histories
+/-! ## 2. C07 in composition, the versions generated by the model: `no_stale_handling` over EVERY history
 
-  FULL STATEMENT (not proved here): for every `acts : List (Act E)` and every `run ∈ (runActs T idle env (created e t) acts).ran`:
-  `(∀ p ∈ run.owns, p.1 ≤ run.ver) ∨ (∃ p tp rest, run.owns = (p, tp) :: rest ∧ tp + T ≤ run.t)` — whenever the changing stage
-  runs on view version `v`, `v` is not below any own write issued before, or the consistency timeout has elapsed since the last
-  one. The ghosts it is stated over (`RState.owns`, `RState.seen`, `RState.ran`) are in the model and driven by the tie. Planned
-  invariant (not carried out): queue versions strictly increasing, above `seen`, at most `rv`; `owns` decreasing, at most `rv`,
-  times at most `clock`; `w.expected = some e → e.n = head of owns`; cover: head of `owns` is `≤ seen`, or armed with
-  `tp + T ≤ deadline`, or `tp + T ≤ clock`.
-  PROVED: the one step the invariant turns on — an iteration on a view that is NOT the awaited version runs the changing stage
-  only once the deadline is reached (C07's `process_handlers_deadline` through the composed `work`, whatever turn of C03 follows). -/
+  `Good T run` (Lemmas/X01_Barrier): the view the changing stage ran on is not older than ANY own write issued before
+  (`∀ p ∈ run.owns, p.1 ≤ run.ver`), or the consistency timeout has elapsed since the last one
+  (`run.owns = (p, tp) :: _ ∧ tp + T ≤ run.t`). Invariant `Inv` (8 clauses: queue versions increasing, above everything dequeued, at
+  most the counter; own writes decreasing, at most the counter, not after the clock; what the worker awaits is not below any own
+  write; the last own write is covered — dequeued, or a deadline `≥ tp + T` is set, or `tp + T` is over; every logged run is good);
+  preserved by `work` (through C07's `arrive_cases`, `process_handlers_deadline`, `process_handlers_ge_now` and `feedback`),
+  by foreign writes and deletions, by `carry`, and by a retirement of the idle worker (C07's `idleTimeout_deadline`). -/
 
-/-- **no_stale_handling_step_partial.** The worker awaits version `e` till `dl`; it dequeues another version. If this
+/-- **no_stale_handling.** For EVERY history of worker iterations, foreign writes, deletions, carried patches, late deliveries and
+    worker retirements from any state satisfying the invariant: whenever the changing stage ran on view version `v`, `v` is not
+    below the version of any own write issued before, or the consistency timeout has elapsed since the last own write. -/
+theorem no_stale_handling (T idle : Int) (env : C03.Env) (r0 : RState E) (h0 : Inv T r0) (acts : List (Act E)) :
+    ∀ run ∈ (runActs T idle env r0 acts).ran,
+      (∀ p ∈ run.owns, p.1 ≤ run.ver) ∨ (∃ p tp rest, run.owns = (p, tp) :: rest ∧ tp + T ≤ run.t) :=
+  (inv_runActs T idle env acts r0 h0).good
+
+/-- … in particular from a freshly created object. -/
+theorem no_stale_handling_created (T idle : Int) (env : C03.Env) (e : E) (t : Int) (acts : List (Act E)) :
+    ∀ run ∈ (runActs T idle env (created e t) acts).ran,
+      (∀ p ∈ run.owns, p.1 ≤ run.ver) ∨ (∃ p tp rest, run.owns = (p, tp) :: rest ∧ tp + T ≤ run.t) :=
+  no_stale_handling T idle env _ (inv_ofLoop T _ 1 (by decide)) acts
+
+/-- The one step the invariant turns on (kept from phase 1). The worker awaits version `e` till `dl`; it dequeues another version. If this
     iteration of the composed step logs a run of the changing stage, that run is on the dequeued version and not before `dl`. -/
 theorem no_stale_handling_step_partial (T : Int) (env : C03.Env) (d : Nat) (r : RState E) (ev : Ev E) (rest : List (Ev E))
     (e : C07.Ver) (dl : Int) (run : Ran)
@@ -123,7 +140,7 @@ theorem no_stale_handling_step_partial (T : Int) (env : C03.Env) (d : Nat) (r : 
     unfold C07.arrive; rw [he]
     have : ¬ (some (⟨ev.ver, false⟩ : C07.Ver) = some e) := fun h => hne (Option.some.inj h).symm
     simp [this]
-  simp only [work, hq, iter0_ver, harr, hd] at hran
+  simp only [work, turn, patchedOf, hq, iter0_ver, harr, hd] at hran
   generalize hh : (C07.process (some dl) (iter0 env r ev rest (if r.clock < ev.at_ then ev.at_ else r.clock))).handlers = h at hran
   cases h with
   | none =>
@@ -146,5 +163,15 @@ def exEnv : C03.Env :=
     boundH := fun _ _ => true, limits := fun _ => ⟨none, none⟩, lifecycle := .asap, exec := fun _ _ => C03.okOutcome,
     prematch := true, changeReq := false, foreignFins := false, constPatch := false, lat := 1, rtt := 1, cap := 38400 }
 example : ((work 64 exEnv 0 exStale).ran.map (fun x => (x.ver, x.t))) = [(1, 100)] := by decide
+
+-- non-vacuity of `no_stale_handling`: T = 64, a history with a foreign write and a LATE echo. Somebody else writes (v2, event at 5)
+-- while the ADDED event (v1) is being handled at 0: `c0` runs, the own write makes v3 at 1, its echo is 200 ticks late. The worker
+-- dequeues v2 at 5 awaiting v3 till 65 — a view OLDER than its own write: the barrier sleeps the deadline out, the changing stage
+-- runs on v2 at 65 (second disjunct: 1 + 64 ≤ 65) and writes v4 at 66. The late echo v3 is dequeued at 201 while v4 is awaited:
+-- older than the own write v4, but 66 + 64 ≤ 201 (second disjunct). v4 at 202: not older than any own write (first disjunct).
+def exHist : List (Act Nat) := [.foreign 7 5, .work 200, .work 0, .work 0, .work 0]
+example : (runActs 64 64 exEnv (created 0 0) exHist).ran.map (fun x => (x.ver, x.t)) = [(4, 202), (3, 201), (2, 65), (1, 0)] := by
+  decide
+example : (runActs 64 64 exEnv (created 0 0) exHist).owns = [(4, 66), (3, 1)] := by decide
 
 end Kopf.X01
